@@ -42,6 +42,11 @@ M = [  # (name, file, old, new, property)
     ('succ-low-high-swapped', 'autoref.py', "        return i, wrap(v), wrap(w)", "        return i, wrap(w), wrap(v)", 'C18'),
     ('descendants-skip-high', 'bdd.py', "        self._descendants(v, visited)\n        self._descendants(w, visited)\n        visited.add(r)", "        self._descendants(v, visited)\n        visited.add(r)", 'C18'),
     ('descendants-no-terminal', 'bdd.py', "        for u in abs_roots:\n            visited.add(1)\n            self._descendants(u, visited)", "        for u in abs_roots:\n            self._descendants(u, visited)", 'C18'),
+    ('sift-back-off-by-one', 'bdd.py', "    k = min(sizes, key=sizes.get)\n    _shift(bdd, end, k, levels)", "    k = min(sizes, key=sizes.get)\n    _shift(bdd, end, k + 1, levels)", 'C07'),
+    ('sift-start-from-wrong-level', 'bdd.py', "    _shift(bdd, level, start, levels)\n    sizes = _shift(bdd, start, end, levels)", "    _shift(bdd, level + 1, start, levels)\n    sizes = _shift(bdd, start, end, levels)", 'C07'),
+    ('harmless-sift-no-collect-first', 'bdd.py', "    bdd.collect_garbage()\n    n = len(bdd)\n    m = n", "    n = len(bdd)\n    m = n", 'C07'),
+    ('harmless-sift-other-direction', 'bdd.py', "    if (2 * level) >= n:\n        start, end = end, start", "    if (2 * level) > n:\n        start, end = end, start", 'C07'),
+    ('harmless-sift-max-key', 'bdd.py', "    m_ = len(bdd)\n    if sizes[k] != m_:", "    m_ = len(bdd._succ)\n    if sizes[k] != m_:", 'C07'),
     ('harmless-descendants-preorder', 'bdd.py', "        self._descendants(v, visited)\n        self._descendants(w, visited)\n        visited.add(r)", "        visited.add(r)\n        self._descendants(v, visited)\n        self._descendants(w, visited)", 'C18'),
     ('support-prune-seen-level', 'bdd.py', "        levels.add(i)\n        # recurse", "        if i in levels:\n            return\n        levels.add(i)\n        # recurse", 'C10'),
     ('load-memo-after-sign', 'bdd.py', "        umap[abs(u)] = r\n        if u < 0:\n            r = -r\n        return r", "        if u < 0:\n            r = -r\n        umap[abs(u)] = r\n        return r", 'C12'),
